@@ -61,6 +61,34 @@ type reqSpec struct {
 	ReqClose  bool   `json:"req_close,omitempty"`
 	AcceptEnc string `json:"accept_encoding,omitempty"`
 	Prog      []op   `json:"prog"`
+	// Trunc != "": this (last) request is cut short and the peer then closes its sending side.
+	Trunc string `json:"trunc,omitempty"`
+}
+
+var truncKinds = []string{"chunked0", "chunked1", "chunked3", "chunkedpartial", "clshort", "clnone", "headcut-midline", "headcut-lineend", "expect-nobody"}
+
+// truncBytes is the truncated follower: a request the peer never completes.
+func truncBytes(kind string, i int) (method string, b []byte) {
+	switch kind {
+	case "chunked0":
+		return "PUT", []byte(fmt.Sprintf("PUT /q%d HTTP/1.1\r\nHost: example.com\r\nTransfer-Encoding: chunked\r\n\r\n", i))
+	case "chunked1":
+		return "PUT", []byte(fmt.Sprintf("PUT /q%d HTTP/1.1\r\nHost: example.com\r\nTransfer-Encoding: chunked\r\n\r\n5\r\nhello\r\n", i))
+	case "chunked3":
+		return "PUT", []byte(fmt.Sprintf("PUT /q%d HTTP/1.1\r\nHost: example.com\r\nTransfer-Encoding: chunked\r\n\r\n5\r\nhello\r\n1\r\n,\r\n6\r\n world\r\n", i))
+	case "chunkedpartial":
+		return "POST", []byte(fmt.Sprintf("POST /q%d HTTP/1.1\r\nHost: example.com\r\nTransfer-Encoding: chunked\r\n\r\n5\r\nhello\r\na\r\nwor", i))
+	case "clshort":
+		return "POST", []byte(fmt.Sprintf("POST /q%d HTTP/1.1\r\nHost: example.com\r\nContent-Length: 10\r\n\r\nhi", i))
+	case "clnone":
+		return "PUT", []byte(fmt.Sprintf("PUT /q%d HTTP/1.1\r\nHost: example.com\r\nContent-Length: 5000\r\n\r\n", i))
+	case "headcut-midline":
+		return "GET", []byte(fmt.Sprintf("GET /q%d HTTP/1.1\r\nHost: exam", i))
+	case "headcut-lineend":
+		return "POST", []byte(fmt.Sprintf("POST /q%d HTTP/1.1\r\nHost: example.com\r\nContent-Length: 2\r\n", i))
+	default: // expect-nobody
+		return "POST", []byte(fmt.Sprintf("POST /q%d HTTP/1.1\r\nHost: example.com\r\nExpect: 100-continue\r\nContent-Length: 5\r\n\r\n", i))
+	}
 }
 
 func (q *reqSpec) hasCloser() bool {
@@ -79,10 +107,17 @@ type caseSpec struct {
 	NoServer bool      `json:"no_server,omitempty"`
 	NoDate   bool      `json:"no_date,omitempty"`
 	NoCType  bool      `json:"no_ctype,omitempty"`
+	// server configuration that changes how the write buffer is handled between pipelined requests
+	ReduceMem bool `json:"reduce_memory_usage,omitempty"`
+	StreamReq bool `json:"stream_request_body,omitempty"`
 }
 
 func (cs *caseSpec) reqBytes(i int) []byte {
 	q := &cs.Reqs[i]
+	if q.Trunc != "" {
+		_, tb := truncBytes(q.Trunc, i)
+		return tb
+	}
 	var b bytes.Buffer
 	ver := "HTTP/1.1"
 	if q.HTTP10 {
@@ -141,6 +176,10 @@ func (cs *caseSpec) describe() []string {
 		}
 		if q.ReqClose {
 			extra += " close"
+		}
+		if q.Trunc != "" {
+			out = append(out, fmt.Sprintf("%s TRUNCATED(%s) then peer EOF: %s", q.Method, q.Trunc, strings.Join(ops, "; ")))
+			continue
 		}
 		out = append(out, fmt.Sprintf("%s/%s%s: %s", q.Method, v, extra, strings.Join(ops, "; ")))
 	}
@@ -279,8 +318,13 @@ func genOp(r *rand.Rand, method string) op {
 
 func genCase(r *rand.Rand) *caseSpec {
 	cs := &caseSpec{Frag: pick(r, fragChoices), Compress: r.Intn(6) == 0,
-		NoServer: r.Intn(8) == 0, NoDate: r.Intn(8) == 0, NoCType: r.Intn(8) == 0}
+		NoServer: r.Intn(8) == 0, NoDate: r.Intn(8) == 0, NoCType: r.Intn(8) == 0,
+		ReduceMem: r.Intn(3) == 0, StreamReq: r.Intn(5) == 0}
 	nreq := 2 + r.Intn(2)
+	if r.Intn(4) == 0 {
+		// deeper pipelines: with Frag 0 all of them sit in the read buffer when the first response is written
+		nreq = 2 + r.Intn(5)
+	}
 	for i := 0; i < nreq; i++ {
 		q := reqSpec{Method: []string{"GET", "GET", "HEAD", "POST"}[r.Intn(4)], HTTP10: r.Intn(4) == 0}
 		if !q.HTTP10 && i == nreq-1 && r.Intn(4) == 0 {
@@ -294,14 +338,43 @@ func genCase(r *rand.Rand) *caseSpec {
 		}
 		cs.Reqs = append(cs.Reqs, q)
 	}
+	if r.Intn(5) == 0 {
+		// truncated follower: the head (or head and part of the body) of one more request arrives
+		// with the complete ones, then the peer closes its sending side (the script ends: EOF)
+		kind := pick(r, truncKinds)
+		m, _ := truncBytes(kind, len(cs.Reqs))
+		q := reqSpec{Method: m, Trunc: kind}
+		// (a program in case the handler is invoked for it: with StreamRequestBody it runs once the head is complete)
+		for k, n := 0, 1+r.Intn(3); k < n; k++ {
+			q.Prog = append(q.Prog, genOp(r, q.Method))
+		}
+		cs.Reqs = append(cs.Reqs, q)
+		if r.Intn(2) == 0 {
+			cs.Frag = 0 // everything in one segment
+		}
+	}
 	return cs
 }
+
+func (cs *caseSpec) truncated() bool { return cs.Reqs[len(cs.Reqs)-1].Trunc != "" }
 
 // class is the feature vector of a connection.
 func (cs *caseSpec) class() string {
 	var b strings.Builder
 	if cs.Compress {
 		b.WriteString("Z")
+	}
+	if cs.ReduceMem {
+		b.WriteString("R")
+	}
+	if cs.StreamReq {
+		b.WriteString("S")
+	}
+	if len(cs.Reqs) > 3 {
+		b.WriteString("D")
+	}
+	if cs.truncated() {
+		b.WriteString("T" + cs.Reqs[len(cs.Reqs)-1].Trunc)
 	}
 	fmt.Fprintf(&b, "f%d", min(cs.Frag, 2))
 	for i := range cs.Reqs {
@@ -317,6 +390,9 @@ func (cs *caseSpec) class() string {
 }
 
 func (cs *caseSpec) nontrivial() bool {
+	if cs.truncated() {
+		return true
+	}
 	for i := range cs.Reqs {
 		q := &cs.Reqs[i]
 		if len(q.Prog) >= 3 {
